@@ -101,7 +101,7 @@ func cmdVerify(args []string) {
 			Discharge(res.Obls, work+"/"+sanitize(res.Name), *timeout, 0, 8)
 			ok, fail := 0, 0
 			for _, o := range res.Obls {
-				good := (o.Status == "unsat" && !o.ExpectSat) || (o.Status == "sat" && o.ExpectSat)
+				good := (o.Status == "unsat" && !o.ExpectSat) || (o.Status != "unsat" && o.ExpectSat)
 				if good {
 					ok++
 				} else {
